@@ -10,6 +10,20 @@ pub fn parse_keyword<S: TexlangState>(
     input: &mut vm::ExpandedStream<S>,
     keyword: &str,
 ) -> txl::Result<bool> {
+    // Blanks before the keyword are skipped, and stay skipped if it does not match.
+    while let Some(token) = input.next()? {
+        if !matches!(token.value(), token::Value::Space(_)) {
+            input.back(token);
+            break;
+        }
+    }
+    parse_keyword_tail(input, keyword)
+}
+
+fn parse_keyword_tail<S: TexlangState>(
+    input: &mut vm::ExpandedStream<S>,
+    keyword: &str,
+) -> txl::Result<bool> {
     let Some(c) = keyword.chars().next() else {
         // keyword is empty
         return Ok(true);
@@ -25,7 +39,7 @@ pub fn parse_keyword<S: TexlangState>(
         return Ok(false);
     }
     // this character matched; now try to match the result of keyword
-    let result = parse_keyword(input, &keyword[c.len_utf8()..]);
+    let result = parse_keyword_tail(input, &keyword[c.len_utf8()..]);
     if let Ok(false) = result {
         // some later character did not match, reverse consuming the token.
         input.back(token);
